@@ -50,7 +50,7 @@ class Intrinsics:
             if n == 'builtins.float':
                 return isinstance(v, (float, SymFloat))
             if n == 'builtins.str':
-                return isinstance(v, str)
+                return isinstance(v, str) or type(v).__name__ == 'SymStr'
             if n == 'builtins.tuple':
                 return isinstance(v, tuple)
             if n == 'builtins.list':
@@ -137,6 +137,9 @@ class Intrinsics:
     def b_len(self, P, v):
         if isinstance(v, (tuple, list, dict, set, str)):
             return len(v)
+        if type(v).__name__ == 'SymStr':
+            from . import strings
+            return strings.length(P, v)
         if isinstance(v, SObj):
             return P.call_method(v, '__len__', [], {})
         raise Unsupported(f'len of {v!r}')
@@ -186,6 +189,9 @@ class Intrinsics:
         return simp(z3.If(x >= 0, x, -x))
 
     def b_int(self, P, v=0, base=None):
+        if type(v).__name__ == 'SymStr':
+            from . import strings
+            return strings.to_int(P, v, 10 if base is None else base)
         if base is not None:
             if isinstance(v, str) and isinstance(base, int):
                 try:
@@ -717,3 +723,75 @@ class Intrinsics:
         if not is_z3(a) and not is_z3(b):
             return Fraction(a) / Fraction(b)
         return simp(as_z3real(a) / as_z3real(b))
+
+    # ----------------------------------------------------- numeral strings (C06)
+    def x_re_compile(self, P, pattern, *flags):
+        from .strings import RegexV
+        if flags or not isinstance(pattern, str):
+            raise Unsupported('re.compile with flags / non-literal pattern')
+        return RegexV(pattern)
+
+    def x_re_fullmatch(self, P, rx, s, *flags):
+        from . import strings
+        if flags:
+            raise Unsupported('re.fullmatch with flags')
+        return strings.fullmatch(P, rx, s)
+
+    def m_match_group(self, P, recv, k=0):
+        if is_z3(k) or not isinstance(k, int) or not 0 <= k < len(recv.groups):
+            raise Unsupported('match.group with a symbolic / out-of-range index')
+        return recv.groups[k]
+
+    def m_symstr_strip(self, P, recv, *a):
+        if a or recv.segs is not None:
+            raise Unsupported('strip of a constructed symbolic string')
+        return recv      # (T3) surrounding whitespace is not modelled
+
+    m_symstr_lstrip = m_symstr_strip
+    m_symstr_rstrip = m_symstr_strip
+
+    def m_symstr_split(self, P, recv, *a):
+        from . import strings
+        return strings.split(P, recv, *a)
+
+    def m_symstr_startswith(self, P, recv, x):
+        from . import strings
+        return strings.startswith(P, recv, x)
+
+    def m_str_lstrip(self, P, recv, *a):
+        return recv.lstrip(*a)
+
+    def m_str_rstrip(self, P, recv, *a):
+        return recv.rstrip(*a)
+
+    def _groups(self, P, s, kind):
+        from . import strings
+        import speclib
+        if isinstance(s, str):
+            return getattr(speclib, kind + '_groups')(s)
+        if isinstance(s, strings.SymStr) and s.name is not None:
+            return strings.groups_of(P, s, kind)
+        raise Unsupported(f'{kind}_groups of {s!r}')
+
+    def s_dec_groups(self, P, s):
+        return self._groups(P, s, 'dec')
+
+    def s_hex_groups(self, P, s):
+        return self._groups(P, s, 'hex')
+
+    def s_dval(self, P, d, base):
+        from .strings import DigitStr
+        import speclib
+        if isinstance(d, str):
+            return speclib.dval(d, base)
+        if isinstance(d, DigitStr) and d.base == base:
+            return d.val
+        raise Unsupported(f'dval({d!r}, {base})')
+
+    def s_dlen(self, P, d):
+        from .strings import DigitStr
+        if isinstance(d, str):
+            return len(d)
+        if isinstance(d, DigitStr):
+            return d.len
+        raise Unsupported(f'dlen({d!r})')
